@@ -11,7 +11,7 @@ PROP = dict(
         "ntp_proto::keyset::DecodedServerCookie::plaintext",
         "ntp_proto::packet::crypto::{AesSivCmac256::try_from, AesSivCmac512::try_from, key_size, new, key_bytes}",
     ],
-    bounds="history h in 0..=3; up to 5 rotations from a one-key set with ARBITRARY u32 id offset (wrap-around included); h in 0..=2: issuing snapshot i and decoding "
+    bounds="rotation of over-full providers (n keys, history h < n-1, as produced by load with a lowered stale-key count): (n,h) in {(4,1),(3,0)} quick, {(4,2),(4,0),(3,1),(2,0)} thorough, issuing key p symbolic, arbitrary id offset; history h in 0..=3; up to 5 rotations from a one-key set with ARBITRARY u32 id offset (wrap-around included); h in 0..=2: issuing snapshot i and decoding "
            "snapshot j both symbolic in 0..=5 (thorough); h in 0..=3: straight-line life of one cookie issued after 1 rotation, presented after each of the next h+1 rotations "
            "and to the previous key set (h=1 quick, others thorough); all session key bytes, cookie key bytes, "
            "nonces and tags symbolic; both AEAD algorithms for the round trip; tampering: any single byte position inside the declared length XOR any non-zero mask, "
@@ -40,10 +40,16 @@ PROP = dict(
         H(KS, "c26", "c26_short", "every input of <= 40 bytes is rejected without panic", timeout=600),
         H(KS, "c26", "c26_new", "KeySetProvider::new(h): one fresh key, id offset 0, primary 0, any history", timeout=600),
         H(KS, "c26", "c26_window_h1", "h=1: cookie issued after 1 rotation decodes for 1 more rotation, rejected after 2; newest key used; id = offset+i", timeout=600),
+        H(KS, "c26", "c26_rotate_shrunk", "provider with 4 keys and history 1 (loaded with a lowered stale-key count): one rotation drops 3 keys; cookie of key p decodes iff retained, ids stable, new id = old primary id + 1", timeout=600),
+        H(KS, "c26", "c26_rotate_shrunk_n3h0", "3 keys, history 0: rotation drops all old keys, every old cookie rejected, new id = old primary id + 1", timeout=600),
         H(KS, "c26", "c26_key_try_from_256", "AesSivCmac256::try_from == specification for all lengths <= 40", timeout=600),
         H(KS, "c26", "c26_roundtrip_512", "decode(encode(x)) == x, AES-SIV-CMAC-512 session keys", tier="thorough"),
         H(KS, "c26", "c26_tamper_512", "one-byte tampering rejected (512 cookie)", tier="thorough"),
         H(KS, "c26", "c26_key_try_from_512", "AesSivCmac512::try_from == specification for all slice lengths <= 72 and for [u8; 64]", tier="thorough"),
+        H(KS, "c26", "c26_rotate_shrunk_n4h2", "4 keys, history 2: rotation drops 2", tier="thorough"),
+        H(KS, "c26", "c26_rotate_shrunk_n4h0", "4 keys, history 0: rotation drops 4", tier="thorough"),
+        H(KS, "c26", "c26_rotate_shrunk_n3h1", "3 keys, history 1: rotation drops 2", tier="thorough"),
+        H(KS, "c26", "c26_rotate_shrunk_n2h0", "2 keys, history 0: rotation drops 2", tier="thorough"),
         H(KS, "c26", "c26_window_h0", "h=0 straight-line window", tier="thorough"),
         H(KS, "c26", "c26_window_h2", "h=2 straight-line window", tier="thorough"),
         H(KS, "c26", "c26_window_h3", "h=3 straight-line window (5 rotations)", tier="thorough"),
